@@ -37,7 +37,7 @@ Print Assumptions sem_cas_never_fails.
 
 (* ---- clauses the code does NOT satisfy (findings; witnesses replayed on the implementation) ---- *)
 
-(* F21 "barging": in-order mode, mixed demands.  A quiescent reachable state whose head waiter's
+(* F35 "barging": in-order mode, mixed demands.  A quiescent reachable state whose head waiter's
    demand is covered by the count. *)
 Theorem sem_no_lost_wakeup_inorder_refuted :
   exists s, reachable (init 0 false four 1) s /\ ooo s = false /\ g_crash s = false /\ ~ nlw_inorder s.
